@@ -291,6 +291,7 @@ type RefOutcome struct {
 	Fail   string // "" or a failure class
 	Trace  []string
 	Unspec bool             // the reference semantics leaves the result open (see tags)
+	Clock  bool             // the program reads the wall clock (strtotime of a non-absolute text): no two runs need agree
 	Repeat bool             // result of the real code may depend on map iteration order: evaluate repeatedly
 	Tags   map[*Term]string // edge-case tag of the operation at a term
 }
@@ -300,6 +301,7 @@ type ectx struct {
 	env    map[string]RVal
 	trace  []string
 	unspec bool
+	clock  bool
 	repeat bool
 	tags   map[*Term]string
 }
@@ -321,7 +323,7 @@ func (c *ectx) tag(t *Term, s string) {
 func RefEval(t *Term, env map[string]RVal) RefOutcome {
 	c := &ectx{env: env, tags: map[*Term]string{}}
 	v, f := c.eval(t)
-	return RefOutcome{Val: v, Fail: f, Trace: c.trace, Unspec: c.unspec, Repeat: c.repeat, Tags: c.tags}
+	return RefOutcome{Val: v, Fail: f, Trace: c.trace, Unspec: c.unspec, Clock: c.clock, Repeat: c.repeat, Tags: c.tags}
 }
 
 func (c *ectx) eval(t *Term) (RVal, string) {
@@ -340,7 +342,7 @@ func (c *ectx) eval(t *Term) (RVal, string) {
 func RefEvalRec(t *Term, env map[string]RVal, rec func(t *Term, v RVal)) RefOutcome {
 	c := &ectx{env: env, tags: map[*Term]string{}, rec: rec}
 	v, f := c.eval(t)
-	return RefOutcome{Val: v, Fail: f, Trace: c.trace, Unspec: c.unspec, Repeat: c.repeat, Tags: c.tags}
+	return RefOutcome{Val: v, Fail: f, Trace: c.trace, Unspec: c.unspec, Clock: c.clock, Repeat: c.repeat, Tags: c.tags}
 }
 
 func (c *ectx) eval0(t *Term) (RVal, string) {
@@ -905,9 +907,13 @@ func strOf(v RVal) string {
 			kt := keyText(k)
 			es[i] = kv{kt, kt + ": " + strOf(v.L[i])}
 		}
-		// canonical order: by key text
+		// The documentation fixes no entry order for string(map); the
+		// property only requires a deterministic one (C13).  The oracle
+		// follows the order the implementation documents in its fix
+		// (entries sorted as texts), which differs from key order only when
+		// one key text is a proper prefix of another.
 		for i := 1; i < len(es); i++ {
-			for j := i; j > 0 && es[j].k < es[j-1].k; j-- {
+			for j := i; j > 0 && es[j].s < es[j-1].s; j-- {
 				es[j], es[j-1] = es[j-1], es[j]
 			}
 		}
@@ -1173,6 +1179,7 @@ func init() {
 		tm, ok := parseAbsTime(x[0].S)
 		if !ok {
 			c.unspec = true // only absolute date-time forms are specified
+			c.clock = true  // relative / unparsable forms are resolved against time.Now()
 		}
 		return RTime(tm), ""
 	})
